@@ -41,7 +41,36 @@ def run_model(exe, cases, qsub=True):
 
 
 # ------------------------------------------------------------------ the specification as an oracle
-RANK = {"S": 0, "TW": 0, "R": 1, "M": 2, "TC": 3, "B": 4}
+RANK = {"S": 0, "TW": 0, "Q": 0, "R": 1, "M": 2, "TC": 3, "B": 4}
+
+
+def fltl(f, rows, i=0):
+    """finite-trace LTL, strong next / strong until; f = c11_formulas AST, atom k reads rows[k]"""
+    n = len(rows[0]) if rows else 0
+    k = f[0]
+    if k == "a":
+        return bool(rows[f[1]][i])
+    if k == "!":
+        return not fltl(f[1], rows, i)
+    if k == "&":
+        return fltl(f[1], rows, i) and fltl(f[2], rows, i)
+    if k == "|":
+        return fltl(f[1], rows, i) or fltl(f[2], rows, i)
+    if k == ">":
+        return (not fltl(f[1], rows, i)) or fltl(f[2], rows, i)
+    if k == "X":
+        return i + 1 < n and fltl(f[1], rows, i + 1)
+    if k == "F":
+        return any(fltl(f[1], rows, j) for j in range(i, n))
+    if k == "G":
+        return all(fltl(f[1], rows, j) for j in range(i, n))
+    if k == "U":
+        return any(fltl(f[2], rows, j) and all(fltl(f[1], rows, m) for m in range(i, j)) for j in range(i, n))
+    raise ValueError(k)
+
+
+def req_rows(tab, cs, n):
+    return [[tab_at(tab, c, t) for t in range(n)] for c in cs]
 
 
 def tab_at(tab, c, t):
@@ -97,6 +126,10 @@ def oracle(p, run, obs):
                 bad.append(("after-termination", f"{e} ran after {ended[1]} in step {t}", dict(step=t)))
             if RANK[tag] < rank:
                 bad.append(("order", f"{e} out of documented order in step {t}", dict(step=t, step_events=pre)))
+            if tag == "Q" and any(x[0] in ("S", "TW") and x[1] == e[1] for x in pre[:k]):
+                # documented step 1: (a) temporal requirements, (b) time limit, (d) compose block, then termination conditions
+                bad.append(("order", f"requirement {e[2]} of scenario {e[1]} updated after its compose block / terminate-when in step {t}",
+                            dict(step=t, step_events=pre)))
             rank = max(rank, RANK[tag])
             if tag == "B":
                 if not seen_agents or seen_agents[-1] != e[1]:
@@ -150,6 +183,15 @@ def oracle(p, run, obs):
         i = j + 1 + len(want)
         t += 1
     if done:
+        # an accepted simulation satisfies every temporal requirement of the top-level scenario on the trace of the
+        # steps 0..currentTime (the top-level scenario executes in every step, the last one included)
+        import c11_formulas as F
+        for rid in p["scenarios"][0].get("reqs", []):
+            toks, cs = p["reqs"][rid]
+            rows = req_rows(run["tab"], cs, obs["time"] + 1)
+            if not fltl(F.parse_tokens(toks.split()), rows):
+                bad.append(("requirement-accept", f"simulation accepted ({kind} at step {obs['time']}) although the top-level requirement "
+                            f"`{toks}` is violated by the trace of its atoms {rows}", dict(requirement=toks, atom_rows=rows)))
         if obs["time"] != t:
             bad.append(("counts", f"currentTime {obs['time']} but {t} complete steps were logged", {}))
         if obs["traj"] != obs["time"] + 1:
@@ -271,6 +313,79 @@ def fam_until():
     return out
 
 
+def fam_requirements(quick):
+    """a temporal requirement x every way its scenario can end x ALL truth tables of its atoms over the window:
+    (name, program, table, timestep, max_steps, ("outcome", (kind, time)))"""
+    import itertools
+    import c11_formulas as F
+    out = []
+    loop5 = dict(pre=[], inv=[], body=[("WH", True, [("TK", 5)])])
+    forever = [("WH", True, [("WT",)])]
+    shapes = ["G a0", "F a0", "X a0", "! X a0", "U a0 a1", "G F a0", "G > a0 X a1"]
+    for toks in shapes:
+        f = F.parse_tokens(toks.split())
+        na = len(F.atoms(f))
+        for L in (1, 2, 3):                     # window = steps 0..L-1 of the scenario owning the requirement
+            for bits in itertools.product([False, True], repeat=na * L):
+                rows = [list(bits[a * L:(a + 1) * L]) for a in range(na)]
+                sat = fltl(f, rows)
+                for mode in ("top-after", "top-after-s", "top-when", "top-compose", "top-max", "sub-after", "sub-after-s", "sub-for", "sub-until", "sub-compose"):
+                    hsh = int(common.sha(json.dumps([toks, rows, mode]))[:6], 16)
+                    if quick and na > 1 and L == 3 and hsh % 4:
+                        continue
+                    ts = 0.5 if mode.endswith("-s") else 1
+                    p = cp.empty_program(1)
+                    p["behaviors"] = [loop5]
+                    p["objects"] = [0]
+                    tab = [r + [False] * 4 for r in rows]
+                    cs = list(range(na))
+                    p["reqs"] = [(toks, cs)]
+                    H = None
+                    if mode.startswith("top"):
+                        sc = p["scenarios"][0]
+                        sc["reqs"] = [0]
+                        end = L - 1                 # the scenario (and the simulation) ends in step L-1
+                        if mode == "top-after":
+                            sc["limit"] = (L - 1, "steps")
+                        elif mode == "top-after-s":
+                            sc["limit"] = ((L - 1) * 0.5, "seconds")
+                        elif mode == "top-when":
+                            tab.append([t >= L - 1 for t in range(L + 4)])
+                            sc["termwhen"] = [na]
+                        elif mode == "top-compose":
+                            sc["compose"] = [("WT",)] * (L - 1) + [("MK", 1)]
+                        else:
+                            if L == 1:
+                                continue            # maxSteps=0 means no limit
+                            H = L - 1
+                        exp_kind = "timeLimit" if mode == "top-max" else "scenarioComplete"
+                        # the scene is also checked when sampled: verdict FALSE on the first valuation discards it
+                    else:
+                        # Main: do S1 [for/until]; mark; wait  -- S1 executes steps 0..L-1, Main ends one step after S1 has gone
+                        sub = dict(pre=[], inv=[], limit=None, termwhen=[], monitors=[], compose=list(forever), reqs=[0])
+                        p["scenarios"].append(sub)
+                        inv = ("DS", [1])
+                        end = L                      # S1 stops in step L-1 (own limit / compose) -> Main: mark, wait -> ends at L
+                        if mode == "sub-after":
+                            sub["limit"] = (L - 1, "steps")
+                        elif mode == "sub-after-s":
+                            sub["limit"] = ((L - 1) * 0.5, "seconds")
+                        elif mode == "sub-compose":
+                            sub["compose"] = [("WT",)] * (L - 1) + [("MK", 2)]
+                        elif mode == "sub-for":
+                            inv = ("DSF", [1], L, "steps")
+                            end = L + 1              # S1 is stopped from outside in step L
+                        else:
+                            tab.append([t >= L for t in range(L + 4)])
+                            inv = ("DSU", [1], na)
+                            end = L + 1
+                        p["scenarios"][0]["compose"] = [inv, ("MK", 1), ("WT",)]
+                        exp_kind = "scenarioComplete"
+                    expect = (exp_kind, end) if sat else ("rejected", None)
+                    out.append((f"req {toks} {mode} rows={rows}", p, tab, ts, H, ("outcome", expect)))
+    return out
+
+
 # ------------------------------------------------------------------ main
 def compare(c, name, p, src, run, obs, mod, fam_expect=None):
     """correspondence + oracle for one run; returns True when everything agrees"""
@@ -280,7 +395,7 @@ def compare(c, name, p, src, run, obs, mod, fam_expect=None):
         c.violation("harness", f"case outside the fragment: impl={obs['kind']} model={mod['kind']}", dict(case=case, impl=obs, model=mod))
         return False
     keys = ["kind", "events"]
-    if mod["kind"] not in ("rejected", "PreconditionViolation", "InvariantViolation"):
+    if mod["kind"] not in ("rejected", "PreconditionViolation", "InvariantViolation", "sceneRejected"):
         keys += ["time", "traj", "actions"]
     diff = [k for k in keys if obs.get(k) != mod.get(k)]
     if diff:
@@ -299,7 +414,16 @@ def compare(c, name, p, src, run, obs, mod, fam_expect=None):
         ok = False
         c.violation(kind, msg, dict(case=case, impl={k: obs.get(k) for k in ("kind", "reason", "time", "traj", "actions")},
                                     events=obs["events"], **extra))
-    if fam_expect is not None:
+    if fam_expect is not None and fam_expect[0] == "outcome":
+        want = tuple(fam_expect[1])
+        got = (obs["kind"], obs.get("time")) if want[1] is not None else (obs["kind"], None)
+        if got == ("sceneRejected", None):      # rejected while sampling the scene or during the simulation: the model pins which
+            got = ("rejected", None)
+        if got != want:
+            ok = False
+            c.violation("requirement-end", f"{name}: documented outcome {want}, got {(obs['kind'], obs.get('time'))}",
+                        dict(case=case, expected=want, impl_kind=obs["kind"], impl_time=obs.get("time"), events=obs["events"]))
+    elif fam_expect is not None:
         exp_actions, exp_end = fam_expect
         got = [a[0][1] if a else None for a in obs.get("actions", [])]
         want = exp_actions[:len(got)]
@@ -338,6 +462,8 @@ def main():
             cases.append((name, p, cp.program_src(p), dict(tab=[], perms=[], max_steps=H, timestep=ts), (exp, end)))
         for name, p, tab, ts, H, exp, end in fam_until():
             cases.append((name, p, cp.program_src(p), dict(tab=tab, perms=[], max_steps=H, timestep=ts), (exp, end)))
+        for name, p, tab, ts, H, expect in fam_requirements(quick):
+            cases.append((name, p, cp.program_src(p), dict(tab=tab, perms=[], max_steps=H, timestep=ts), expect))
         nprog = 180 if quick else 6000
         for n in range(nprog):
             g = cp.Gen(random.Random(rng.getrandbits(64)))
@@ -391,7 +517,8 @@ scenario Main():
         by_src.setdefault(src, []).append(idx)
     jobs = []
     for jid, (src, idxs) in enumerate(by_src.items()):
-        jobs.append(dict(id=jid, src=src, runs=[cases[i][3] for i in idxs], _idxs=idxs))
+        jobs.append(dict(id=jid, src=src, runs=[cases[i][3] for i in idxs], _idxs=idxs,
+                         regen=bool(cases[idxs[0]][1]["scenarios"][0].get("reqs"))))
     _t1 = _t.time()
     impl = run_impl_jobs([{k: v for k, v in j.items() if k != "_idxs"} for j in jobs])
     c.cov['t_impl'] = round(_t.time() - _t1, 1)
